@@ -57,6 +57,9 @@ class C16(Prop):
             xs = [(rng.choice([0, 1, 2, 'a', None]), rng.randint(0, 5)) for _ in range(rng.choice([0, 2, 5, 9, 14]))]
             keys = [0, 1, 2, 'a', None]
             fr = [[F.to_json(k), rng.choice([0.0, 0.0, 0.3, 0.5, 1.0, 0.9])] for k in keys if rng.random() < .7]
+            if rng.random() < .3:
+                # only fractions >= 1 (or no fraction at all) next to keys that are not listed: unlisted keys never appear
+                fr = [[F.to_json(k), 1.0] for k in keys if rng.random() < .4]
             return {'op': op, 'seed': seed, 'parts': [[F.to_json(x) for x in p] for p in random_layout(rng, xs, 5)], 'fractions': fr}
         xs, _ = self.gen_data(rng)
         parts = [[F.to_json(x) for x in p] for p in random_layout(rng, xs, 5)]
@@ -100,19 +103,27 @@ class C16(Prop):
         flat = [x for p in layout for x in p]
         seed = case['seed']
 
+        reeval = []
+
         def twice(fn):
             a = fn()
             b = fn()
             return a, b
+
+        def sampled(r):
+            # the SAME sampled dataset object evaluated again (count, then glom): it must be the same sample
+            first = r.glom().collect()
+            reeval.append((r.count(), sum(len(p) for p in first), r.glom().collect(), first))
+            return first
         try:
             rdd = build_layout(sc, layout)
             if op == 'sample':
-                a, b = twice(lambda: rdd.sample(False, case['f'], seed).glom().collect())
+                a, b = twice(lambda: sampled(rdd.sample(False, case['f'], seed)))
             elif op == 'sampleRepl':
-                a, b = twice(lambda: rdd.sample(True, case['f'], seed).glom().collect())
+                a, b = twice(lambda: sampled(rdd.sample(True, case['f'], seed)))
             elif op in ('sampleByKey', 'sampleByKeyRepl'):
                 fr = {F.from_json(k): v for k, v in case['fractions']}
-                a, b = twice(lambda: rdd.sampleByKey(op.endswith('Repl'), fr, seed).glom().collect())
+                a, b = twice(lambda: sampled(rdd.sampleByKey(op.endswith('Repl'), fr, seed)))
             elif op == 'takeSample':
                 a, b = twice(lambda: rdd.takeSample(False, case['num'], seed))
             elif op == 'takeSampleRepl':
@@ -126,6 +137,10 @@ class C16(Prop):
         if canon(F.to_json(a)) != canon(F.to_json(b)):
             return Mismatch('%s with the same seed and partitioning gave two different results' % op, F.to_json(a), F.to_json(b),
                             'C16:%s:nondeterministic' % op, relation='spec')
+        for cnt, n1, again, first in reeval:
+            if cnt != n1 or canon(F.to_json(again)) != canon(F.to_json(first)):
+                return Mismatch('%s: evaluating the same sampled dataset again (count / collect) gives a different sample' % op,
+                                {'count': cnt, 'second': F.to_json(again)}, F.to_json(first), 'C16:%s:reevaluation' % op, relation='spec')
         impl = F.to_json(a)
         sizes = [len(p) for p in layout]
         if op == 'sample':
